@@ -75,6 +75,52 @@ Proof. exact received_deletes_all. Qed.
 Theorem C12_run_s_forget : forall l st, map forget_storage (run_s st l) = run st (map fst l).
 Proof. exact run_s_forget. Qed.
 
+(* ---- non-vacuity: the example run (ClusterModProofs.ex_run: 7 cycles; topic 2 vanishes in cycle 3, stays away,
+   returns in cycle 5, vanishes again in cycle 6; the refresh of cycle 2 fails part-way; topic 3 never has a leader) *)
+Example C12_delete_exactly_once_ex :
+  map (fun en => co_deletes (en_out en)) ex_trace = [ []; []; []; [2]; []; []; [2] ].
+Proof. exact delete_exactly_once_ex. Qed.
+
+Example C12_refreshed_ex :
+  map (fun en => refreshed (en_pre en) (en_env en)) ex_trace
+  = [ Some [1; 2; 3]; None; None; Some [1; 3]; Some [3; 1]; Some [1; 2; 3]; Some [1; 3] ].
+Proof. exact refreshed_ex. Qed.
+
+Example C12_ghost_topics_ex :
+  map (fun en => ghost_topics (en_ghost en)) ex_trace
+  = [ []; [1; 2; 3]; [1; 2; 3]; [1; 2; 3]; [1; 3]; [3; 1]; [1; 2; 3] ].
+Proof. exact ghost_topics_ex. Qed.
+
+Example C12_failed_refresh_keeps_snapshot_ex :
+  match nth_error ex_trace 2 with
+  | Some en => fetchMetadata (en_pre en) = true /\ refreshed (en_pre en) (en_env en) = None
+               /\ keys (snap (co_state (en_out en))) = keys (snap (en_pre en))
+               /\ keys (snap (en_pre en)) = [3; 2; 1]
+  | None => False
+  end.
+Proof. exact failed_refresh_keeps_snapshot_ex. Qed.
+
+Example C12_leaderless_not_deleted_ex :
+  match nth_error ex_trace 0 with
+  | Some en => refreshed (en_pre en) (en_env en) = Some [1; 2; 3]
+               /\ map (fun p => has_leader (en_env en) 3 p) [0; 1] = [false; false]
+               /\ option_map (fun i => (ti_ids i, ti_count i)) (smap_find 3 (snap (co_state (en_out en)))) = Some ([], 2)
+  | None => False
+  end.
+Proof. exact leaderless_not_deleted_ex. Qed.
+
+(* storage busy in cycles 0 and 3 (takes no broker-offset update in time): the deletion of cycle 3 arrives *)
+Example C12_received_ex :
+  map (fun x => match snd x with Done (_, rs) => rs | Crash => [] end) (run_s init_state ex_run_s)
+  = [ [];
+      [];
+      [SBrokerOffset (2, 0, 20, 1); SBrokerOffset (1, 0, 100, 3); SBrokerOffset (1, 2, 300, 3)];
+      [SDeleteTopic 2];
+      [SBrokerOffset (1, 0, 100, 3); SBrokerOffset (1, 2, 300, 3)];
+      [SBrokerOffset (2, 0, 20, 1); SBrokerOffset (1, 0, 100, 3); SBrokerOffset (1, 2, 300, 3)];
+      [SDeleteTopic 2; SBrokerOffset (1, 0, 100, 3); SBrokerOffset (1, 2, 300, 3)] ].
+Proof. exact received_ex. Qed.
+
 Print Assumptions C12_delete_exactly_once.
 Print Assumptions C12_one_deletion_per_disappearance.
 Print Assumptions C12_failed_refresh_keeps_snapshot.
